@@ -398,6 +398,8 @@ class ExprMixin:
             return x in coll
         if isinstance(coll, VRefMap):
             return self.wrap(z3.Select(coll.arr, self.z(x)), "bool")
+        if type(coll).__name__ == "VOptRefMap":
+            return self.wrap(z3.Select(coll.present, self.z(x)), "bool")
         if isinstance(coll, VSet):
             if not is_const(x):
                 ts = [z3.And(self.b(self.truth(self.eq(k, x))), self.b(m)) for k, m in coll.members.items()]
@@ -508,6 +510,12 @@ class ExprMixin:
             base = base.val
         if isinstance(base, VRefMap):
             return self.wrap(z3.Select(base.arr, self.z(idx)), base.valkind)
+        if type(base).__name__ == "VOptRefMap":
+            k = self.z(idx)
+            if not self.spec:
+                self.prove("noraise", "key_present@subscript", z3.Select(base.present, k), src="d[key]")
+                self.pc.append(z3.Select(base.present, k))
+            return VOpt(z3.Select(base.isnone, k), Sym(z3.Select(base.val, k), "ref", base.cls))
         if isinstance(base, dict):
             if is_const(idx):
                 if idx in base:
